@@ -43,7 +43,7 @@ def main():
                     print(f"{kind}/{name}: does not build: {out.strip()[:200]}"); bad.append(name); continue
                 verdicts = []
                 for p in m["props"]:
-                    rc, out = run(f"cd /verif && GOVC_EVIDENCE_DIR=/verif/work/selftest_evidence bin/govc check -prop {p}")
+                    rc, out = run(f"cd /verif && GOVC_EVIDENCE_DIR=/verif/work/selftest_evidence ${{GOVC_BIN:-bin/govc}} check -prop {p}")
                     viol = [l for l in out.split("\n") if l.startswith("VIOLATION")]
                     verdicts.append((p, rc, viol, out))
                 if kind == "mutants":
